@@ -25,7 +25,7 @@ import (
 func init() {
 	Registry["C06"] = &Check{
 		Scenarios: c06Scenarios,
-		Rule: "a retained message followed by a second message (the same wire image, or one with member-less groups) that is then edited in every ordinary way (a member added to each of its groups at every depth, a top-level AVP added, header changed): the retained one must not change; histories: a retained first message M1 (one per slice-backed representation: Address IPv4 / IPv6 / other family, undefined AVP, IPv4, IPv6, OctetString, UTF8String, a grouped AVP containing each, nested groups; and one AVP of every declared type carrying payloads of 15 unexpected lengths / shapes, i.e. the lenient decode paths) followed by every sequence of <=3 further reads drawn from {same size with other content, larger but pooled, larger than the 1 KiB pooled buffer} x {same reader, another reader}; the pool shim reuses buffers deterministically (LIFO), so nothing depends on sync.Pool's luck; the same with the exported tuning variable diam.MessageBufferLength raised to 4096 and retained payloads of 1000..3000 bytes. schedules: two connections served by the real reader loops, a handler that retains the first message of connection A, a concurrent writer; Pool.Get is an explored choice (any pooled buffer, or a fresh one); every schedule up to preemption bound 2 (thorough: 4 on all fifteen retained shapes). Oracle: Serialize() bytes and String() of M1 taken when the reader returned it equal those taken at quiescence. Plus: M1 is unmarshalled into a struct and two later messages of the same shape are unmarshalled into the SAME struct value (field shapes *diam.AVP, diam.AVP, []*diam.AVP, the datatype, a pointer to it; 8 data types).",
+		Rule: "a retained message followed by a second message (the same wire image, or one with member-less groups) that is then edited in every ordinary way (a member added to each of its groups at every depth, a top-level AVP added, header changed): the retained one must not change; retained AVPs of an application-defined data type whose name is registered without a decoder (kept, if at all, as a copy); histories: a retained first message M1 (one per slice-backed representation: Address IPv4 / IPv6 / other family, undefined AVP, IPv4, IPv6, OctetString, UTF8String, a grouped AVP containing each, nested groups; and one AVP of every declared type carrying payloads of 15 unexpected lengths / shapes, i.e. the lenient decode paths) followed by every sequence of <=3 further reads drawn from {same size with other content, larger but pooled, larger than the 1 KiB pooled buffer} x {same reader, another reader}; the pool shim reuses buffers deterministically (LIFO), so nothing depends on sync.Pool's luck; the same with the exported tuning variable diam.MessageBufferLength raised to 4096 and retained payloads of 1000..3000 bytes. schedules: two connections served by the real reader loops, a handler that retains the first message of connection A, a concurrent writer; Pool.Get is an explored choice (any pooled buffer, or a fresh one); every schedule up to preemption bound 2 (thorough: 4 on all fifteen retained shapes). Oracle: Serialize() bytes and String() of M1 taken when the reader returned it equal those taken at quiescence. Plus: M1 is unmarshalled into a struct and two later messages of the same shape are unmarshalled into the SAME struct value (field shapes *diam.AVP, diam.AVP, []*diam.AVP, the datatype, a pointer to it; 8 data types).",
 		Assume: []string{"data-race freedom between visible operations (audited separately with -race)", "sync.Pool is modelled as: Get returns any previously Put object or allocates"},
 		QuickBudget: 100, ThoroughBudget: 1500,
 	}
@@ -107,6 +107,25 @@ func c06OddFirsts() (names []string, wires [][]byte, parsers []*dict.Parser) {
 		names, wires, parsers = append(names, gn...), append(wires, gw...), append(parsers, gp...)
 	}()
 	hdr := refcodec.Header{Version: 1, Flags: 0x80, Code: 777, App: 0, HbH: 1, E2E: 1}
+	// an application-defined data type: its name is registered (datatype.Available, so that the
+	// private dictionary loads) but no decoder is - whether the library rejects such an AVP or
+	// keeps it as opaque data, what it keeps must be a copy
+	if cp := c06CustomTypeDict(); cp != nil {
+		chdr := refcodec.Header{Version: 1, Flags: 0x80, Code: 778, App: 0, HbH: 1, E2E: 1}
+		for _, l := range []int{4, 12, 200, 1000} {
+			pl := make([]byte, l)
+			for i := range pl {
+				pl[i] = 0x11
+			}
+			leaf := refcodec.Node{Code: 9800, Flags: 0x40, Payload: pl}
+			for len(parsers) < len(wires) {
+				parsers = append(parsers, nil)
+			}
+			names = append(names, fmt.Sprintf("odd/custom-type-without-decoder/len%d", l), fmt.Sprintf("odd/custom-type-without-decoder/in-group/len%d", l))
+			wires = append(wires, refcodec.EncodeMessage(chdr, []refcodec.Node{leaf}), refcodec.EncodeMessage(chdr, []refcodec.Node{{Code: 9801, Flags: 0x40, Group: true, Children: []refcodec.Node{leaf}}}))
+			parsers = append(parsers, cp, cp)
+		}
+	}
 	mapped := []byte{0, 0, 0, 0, 0, 0, 0, 0, 0, 0, 0xff, 0xff, 10, 1, 2, 3}
 	for k := atoms.Kind(0); k < atoms.NKinds; k++ {
 		d, ok := c06Alpha.Plain[k]
@@ -128,6 +147,30 @@ func c06OddFirsts() (names []string, wires [][]byte, parsers []*dict.Parser) {
 		}
 	}
 	return
+}
+
+var c06CustomParser *dict.Parser
+var c06CustomTried bool
+
+func c06CustomTypeDict() *dict.Parser {
+	if c06CustomTried {
+		return c06CustomParser
+	}
+	c06CustomTried = true
+	datatype.Available["Verif-Custom-Type"] = datatype.TypeID(200)
+	p, err := dict.NewParser()
+	if err == nil {
+		err = p.Load(strings.NewReader(`<?xml version="1.0" encoding="UTF-8"?>
+<diameter><application id="0" name="Custom">
+<command code="778" short="CT" name="Custom-Type"><request><rule avp="Custom-Blob" required="false"/><rule avp="Custom-Group" required="false"/></request><answer><rule avp="Custom-Blob" required="false"/></answer></command>
+<avp name="Custom-Blob" code="9800" must="M"><data type="Verif-Custom-Type"/></avp>
+<avp name="Custom-Group" code="9801" must="M"><data type="Grouped"><rule avp="Custom-Blob" required="false"/></data></avp>
+</application></diameter>`))
+	}
+	if err == nil {
+		c06CustomParser = p
+	}
+	return c06CustomParser
 }
 
 // c06OddGroups: every Grouped AVP of the base application of the default dictionary (and the
